@@ -47,6 +47,16 @@ Theorem C17_run_terminates : forall (sbits : N) (hash : N -> N) (ops : list op),
 Proof. exact run_terminates. Qed.
 Print Assumptions C17_run_terminates.
 
+(** the same under a static bound on the sequence instead of [ops_ok]: at most [B]
+    operations, reserve / with_capacity arguments at most [B], and a table for
+    [2 * B] elements is still addressable with [sbits] status bits *)
+Theorem C17_run_small : forall (sbits : N) (hash : N -> N) (B : N) (ops : list op),
+  (N.of_nat (length ops) <= B)%N -> Forall (op_small B) ops ->
+  (next_capacity (2 * B) <= 2 ^ sbits)%N ->
+  sim_trace [] ops (run sbits hash empty ops) /\ ~ In RDiverge (run sbits hash empty ops).
+Proof. exact run_correct_small. Qed.
+Print Assumptions C17_run_small.
+
 (** the individual operations *)
 Theorem C17_lookup : forall (sbits : N) (hash : N -> N) (t : tbl) (k : N),
   TI sbits hash t ->
